@@ -74,6 +74,7 @@ SetGroup(H, x, f(_)) == [y \in Handles |-> IF SameGroup(H, y, x) THEN f(H[y]) EL
 Obs(op, args, res)       == last' = [op |-> op, args |-> args, res |-> res, val |-> {}]
 ObsV(op, args, res, val) == last' = [op |-> op, args |-> args, res |-> res, val |-> val]
 CacheAfterRead(p) == IF memRead[p] \/ ~cacheEx[p] THEN mem[p] ELSE MergeF(mem[p], cacheF[p])
+CacheAfterReadS(S, p) == IF memRead[p] \/ ~cacheEx[p] THEN S.mem[p] ELSE MergeF(S.mem[p], cacheF[p])
 NewHandle(x, p, i, s, dk) == [live |-> TRUE, proj |-> p, id |-> i, spMem |-> s, spInit |-> FALSE,
                               dirKnown |-> dk, docOpen |-> FALSE, grp |-> x, root |-> x]
 Apply(r, op, args) == /\ ws' = r.s.ws /\ h' = r.s.h /\ mem' = r.s.mem /\ locks' = r.s.locks /\ tainted' = r.s.taint
@@ -277,7 +278,7 @@ Move(x, q) ==
   /\ LET ld == LoadR(St, x)  p == h[x].proj  old == h[x].id IN
      IF ld.res # "ok" THEN Apply(ld, "move", <<x, q>>) /\ UNCHANGED <<memRead>>
      ELSE LET sp == ld.s.h[x].spMem.v  rec == Rec(p, old)  dst == Rec(q, sp)
-              S1 == [ld.s EXCEPT !.mem[q] = CacheAfterRead(q)] IN
+              S1 == [ld.s EXCEPT !.mem[q] = CacheAfterReadS(ld.s, q)] IN
           /\ memRead' = [memRead EXCEPT ![q] = TRUE]
           /\ IF ~rec.ex THEN Apply(Out(S1, "RuntimeError"), "move", <<x, q>>)
              ELSE IF dst.ex /\ ~EmptyDir(dst) THEN Apply(Out(S1, "DestinationExistsError"), "move", <<x, q>>)
@@ -291,7 +292,7 @@ Clone(x, q, y) ==                \* y = q.clone(job x)
   /\ LET ld == LoadR(St, x)  p == h[x].proj  old == h[x].id IN
      IF ld.res # "ok" THEN Apply(ld, "clone", <<x, q, y>>) /\ UNCHANGED <<memRead>>
      ELSE LET sp == ld.s.h[x].spMem.v  rec == Rec(p, old)  dst == Rec(q, sp)
-              S1 == [ld.s EXCEPT !.mem[q] = IF q = p THEN @ ELSE CacheAfterRead(q)] IN
+              S1 == [ld.s EXCEPT !.mem[q] = CacheAfterReadS(ld.s, q)] IN
           /\ memRead' = [memRead EXCEPT ![q] = TRUE]
           /\ IF ~rec.ex THEN Apply(Out(S1, "ValueError"), "clone", <<x, q, y>>)
              ELSE IF dst.ex THEN Apply(Out(S1, "DestinationExistsError"), "clone", <<x, q, y>>)
